@@ -142,6 +142,12 @@ try:
 except ImportError:
     pass
 
+try:
+    import libhost_c07  # C07: pagers used as objects (programs over `pages` / `__iter__` generators), caller's request before/after
+    OPS.update(libhost_c07.OPS)
+except ImportError:
+    pass
+
 
 def main():
     ops = json.loads(sys.stdin.read())
